@@ -550,7 +550,11 @@ inline void apply(World &w, const Op &op) {
         w.big[i] = tbig;  // took over the other set's storage
       } else {
         const bool mv = op.k == MOVE_CTOR_T;
-        replace(i, [&](void *where) { if (mv) ::new (where) S(std::move(*t)); else ::new (where) S(static_cast<const S &>(*t)); });
+        replace(i, [&](void *where) {
+          typename S::allocator_type al;
+          if (op.b) { if (mv) ::new (where) S(std::move(*t), al); else ::new (where) S(static_cast<const S &>(*t), al); }
+          else { if (mv) ::new (where) S(std::move(*t)); else ::new (where) S(static_cast<const S &>(*t)); }
+        });
         sp = &SL.s();
         FCHK; unexpected();
         w.m[i].emplace(tm);
